@@ -10,7 +10,7 @@ gn const <T> <name> <val> <d|-> <form> one constant, source order; form only ste
                                        harness writes the line (iota / explicit / implicit)    -> ok
 gn block | gn skip | gn other …        source layout only (new const block, `_` line,
                                        unrelated constant)                                     -> ok
-gn gen                                 run the generator + compile     -> ok | err:compile:<class>
+gn gen                                 run the generator + compile     -> ok | err:compile
 gn values <T>                          Values()                        -> v,v,… | -
 gn valid <T> all | v,v,…               IsValid (all = every value of an 8-bit kind, ascending) -> t/f string
 gn str <T> all | v,v,…                 String()                        -> s,s,…
@@ -60,7 +60,9 @@ def rangeOf (k : IntKind) : List Int :=
 
 def valsArg (k : IntKind) (w : String) : Option (List Int) :=
   if w = "all" then (if k.bits ≤ 8 then some (rangeOf k) else none)
-  else (w.splitOn ",").mapM String.toInt?
+  else match (w.splitOn ",").mapM String.toInt? with
+    | some vs => if vs.all (fun v => decide (k.InRange v)) then some vs else none
+    | none => none
 
 def handle (st : St) (ws : List String) : St × String :=
   match ws with
@@ -78,7 +80,7 @@ def handle (st : St) (ws : List String) : St × String :=
   | ["gen"] =>
     let f : FileDef := ⟨st.types, st.consts.reverse⟩
     let outs := st.types.map (fun t => (t, genType st.opts f t.name))
-    let status := if outs.any (fun o => o.2.dupLowerCase) then "err:compile:dup-lower-case" else "ok"
+    let status := if outs.any (fun o => o.2.dupLowerCase) then "err:compile" else "ok"
     ({ st with outs := outs, status := status }, status)
   | op :: t :: rest =>
     if st.status ≠ "ok" then (st, "no-gen") else
